@@ -72,7 +72,8 @@ pub(crate) fn file_path_spec(s: Span) -> IResult<Span, FilePathSpec> {
 #[tracable_parser]
 #[packrat_parser]
 pub(crate) fn file_path_spec_non_literal(s: Span) -> IResult<Span, FilePathSpec> {
-    let (s, a) = ws(map(is_not(",; "), |x| into_locate(x)))(s)?;
+    // a file path ends at any white space (IEEE 1800-2017 5.3), not only at a blank
+    let (s, a) = ws(map(is_not(",; \t\r\n\x0c"), |x| into_locate(x)))(s)?;
     Ok((
         s,
         FilePathSpec::NonLiteral(FilePathSpecNonLiteral { nodes: a }),
